@@ -77,7 +77,12 @@ def oracle(case):
             rest = r[1:]
             for k in range(0, len(rest), case["wrap"]):
                 prows.append(rest[k:k + case["wrap"]])
-    spec = lastext.simple_spec(curves, prows, wrap="YES" if case.get("wrap") else "NO", null=case["null_text"], dlm=case.get("dlm"))
+    hdr_null = case["null_text"]
+    if case.get("null_hdr_comma"):
+        # the header states the marker with a decimal comma (header values take ',' as the mark); it is the same number
+        hdr_null = hdr_null.replace(".", ",")
+        out.cls("header-null-with-decimal-comma")
+    spec = lastext.simple_spec(curves, prows, wrap="YES" if case.get("wrap") else "NO", null=hdr_null, dlm=case.get("dlm"))
     spec["sections"][-1]["ncols"] = c
     if case.get("runon"):
         # fixed-width columns: a negative value (the NULL, say) runs into the value before it: 1670.000-999.250-999.250
@@ -198,6 +203,8 @@ def read_cases(draw):
     wrap = draw(st.sampled_from([0, 0, 1, 2, 3])) if c >= 2 else 0
     case = dict(side="read", null=null, null_text=null_text, rows=rows, textcol=textcol, policy=policy,
                 engine=draw(st.sampled_from(["numpy", "normal"])), wrap=wrap)
+    if null_text.count(".") == 1 and draw(st.integers(0, 5)) == 0:
+        case["null_hdr_comma"] = True
     if not wrap and draw(st.integers(0, 3)) == 0:
         case["declared"] = draw(st.integers(0, c))
     if not wrap and draw(st.integers(0, 4)) == 0:
